@@ -771,6 +771,12 @@ def check(run):
         unfinished = run.rng.random() < 0.55
         desc = G.gen_report(run.rng, run.rng.choice(sizes), unfinished=unfinished)
         kind = "generated"
+        if run.rng.random() < 0.35:
+            # the report of a parallel run: siblings are listed in declaration order, not in the order they started
+            # (the generator's clock is monotonic, so shuffling the listing order makes the two orders differ)
+            for lst in [desc["suites"]] + [x for su in G._walk_suites(desc["suites"]) for x in (su["suites"], su["tests"])]:
+                run.rng.shuffle(lst)
+            run.count("reports_listed_in_another_order_than_started")
         if run.rng.random() < 0.3:
             kind, desc = perturb_report(run.rng, desc)
         try:
